@@ -133,8 +133,8 @@ class SafeLearner(Learner):
                     raise bad_len_ap(ap)
                 return 'AP*'
 
-        if no_len(std_pred) or isinstance(std_pred,str):
-            #action
+        if no_len(std_pred) or isinstance(std_pred,(str,dict)):
+            #action (a dict without a format hint is a sparse action)
             std_pred = [std_pred]
         elif len(std_pred) > 2:
             #pmf or action
